@@ -191,6 +191,7 @@ class Execution:
         ev, split = self.backend.start_invocation(fp, pg)
         r.split = split
         r.ops_at_start = {oid: rec["Status"] for oid, rec in self.backend.ops.items() if rec["Type"] != "EXECUTION"}
+        r.attempts_at_start = {oid: rec.get("_attempt", 0) for oid, rec in self.backend.ops.items() if rec["Type"] == "STEP"}
         strategy, crash_at = self._strategy(inv)
         sched = ds.Scheduler(strategy, max_steps=sc.get("max_steps", 60000), hang_after=sc.get("hang_after", 90.0))
         sched.now = self.now
